@@ -97,4 +97,10 @@ func init() {
 		NotDecided:  "the converse (a marked import may still be removable)",
 		Rules:       []func(*World){rkResolvers, rh9UsedImports, rcLink, rc10ExplicitRegistration, rb2SortedAssumptions},
 	})
+	register(&Property{
+		ID:          "C17",
+		Explanation: "R17: effect summaries (commits to a guarded map / can fail with a collision, both transitive within linker/symbols.go; closures passed to walk.Descriptors count as loop bodies) are computed for every function in the call tree of (*Symbols).Import; any CFG-ordered pair (commit site, later fallible site) is reported, since a failure after a commit leaves the table changed. RA4b: within one critical section the commit helper is preceded by its conflict check, the handler verdict and the already-imported re-check.",
+		NotDecided:  "that a successful import records exactly the file's symbols",
+		Rules:       []func(*World){r17Import, ra4Symbols},
+	})
 }
